@@ -48,6 +48,15 @@ def path_extension(p):
     return some(b.rsplit(".", 1)[1])
 
 
+def _p(x):
+    """a pattern argument: char constant (tagged or as its code point) or string"""
+    if isinstance(x, tuple) and x and x[0] == "char":
+        return x[1]
+    if isinstance(x, int) and not isinstance(x, bool):
+        return chr(x)
+    return x
+
+
 def _last(c):
     return c.rsplit("::", 1)[-1]
 
@@ -145,7 +154,7 @@ def apply_model(F, c, a, where):
         return 1 if (a[0] != NONE) == (n == "is_some") else 0
     if re.search(r"str::<impl str>::trim_end_matches$|str>::trim_end_matches$", c):
         s, pat = a[0], a[1]
-        pat = pat[1] if isinstance(pat, tuple) and pat[0] == "char" else pat
+        pat = _p(pat)
         if not isinstance(pat, str):
             raise Undecidable("trim_end_matches with a non-literal pattern at %s" % where)
         while pat and s.endswith(pat):
@@ -153,18 +162,18 @@ def apply_model(F, c, a, where):
         return s
     if re.search(r"str::<impl str>::trim_start_matches$", c):
         s, pat = a[0], a[1]
-        pat = pat[1] if isinstance(pat, tuple) and pat[0] == "char" else pat
+        pat = _p(pat)
         while pat and s.startswith(pat):
             s = s[len(pat):]
         return s
     if re.search(r"str::<impl str>::strip_suffix$", c):
-        pat = a[1][1] if isinstance(a[1], tuple) and a[1][0] == "char" else a[1]
+        pat = _p(a[1])
         return some(a[0][:-len(pat)]) if pat and a[0].endswith(pat) else (some(a[0]) if pat == "" else NONE)
     if re.search(r"str::<impl str>::strip_prefix$", c):
-        pat = a[1][1] if isinstance(a[1], tuple) and a[1][0] == "char" else a[1]
+        pat = _p(a[1])
         return some(a[0][len(pat):]) if a[0].startswith(pat) else NONE
     if re.search(r"str::<impl str>::(ends_with|starts_with|contains)$", c):
-        pat = a[1][1] if isinstance(a[1], tuple) and a[1][0] == "char" else a[1]
+        pat = _p(a[1])
         return 1 if {"ends_with": a[0].endswith(pat), "starts_with": a[0].startswith(pat), "contains": pat in a[0]}[n] else 0
     if re.search(r"str::<impl str>::(trim|trim_end|trim_start)$", c):
         return {"trim": a[0].strip(), "trim_end": a[0].rstrip(), "trim_start": a[0].lstrip()}[n]
